@@ -146,7 +146,7 @@ Proof.
   { cbn [all_digits] in Hd. repeat (apply andb_true_iff in Hd as [? Hd]).
     split; assumption. }
   destruct H7 as [H7 Hr].
-  rewrite !app_length, !dval_app, !pow10_add. cbn [length].
+  rewrite !dval_app, !app_length, !pow10_add. cbn [length].
   rewrite dval_one. eval_pow10.
   set (A := dval [c1; c2; c3; c4; c5; c6]).
   pose proof (dval_bound _ Hr) as HB.
@@ -155,11 +155,550 @@ Proof.
   assert (Hc : (53 <=? c7)%N = (5 <=? digit_val c7)).
   { unfold digit_val. lia. }
   rewrite Hc. set (d := digit_val c7) in *. clearbody d A B P. clear - HB H7r.
-  symmetry.
   assert (Hd : d = 0 \/ d = 1 \/ d = 2 \/ d = 3 \/ d = 4 \/ d = 5 \/ d = 6 \/ d = 7 \/ d = 8 \/ d = 9) by lia.
   destruct (Z.leb_spec 5 d).
   - apply Z.div_unique with (r := 2 * (d * P + B) * 1000000 + 10000000 * P - 20000000 * P);
       [left|]; destruct Hd as [->|[->|[->|[->|[->|[->|[->|[->|[->| ->]]]]]]]]]; lia.
   - apply Z.div_unique with (r := 2 * (d * P + B) * 1000000 + 10000000 * P);
       [left|]; destruct Hd as [->|[->|[->|[->|[->|[->|[->|[->|[->| ->]]]]]]]]]; lia.
+Qed.
+
+Lemma pad6_digits n : forall s, all_digits s = true ->
+  all_digits (pad6 n s) = true /\ length (pad6 n s) = n.
+Proof.
+  induction n as [|n IH]; intros s H; [split; reflexivity|].
+  destruct s as [|c s]; cbn [pad6 all_digits length].
+  - destruct (IH [] eq_refl) as [H1 H2]. rewrite H1, H2. split; reflexivity.
+  - cbn [all_digits] in H. apply andb_true_iff in H as [Hc Hs].
+    destruct (IH s Hs) as [H1 H2]. rewrite Hc, H1, H2. split; reflexivity.
+Qed.
+
+Lemma pad6_bound s : all_digits s = true -> 0 <= dval (pad6 6 s) <= 999999.
+Proof.
+  intro H. destruct (pad6_digits 6 s H) as [H1 H2].
+  pose proof (dval_bound _ H1) as Hb. rewrite H2 in Hb. eval_pow10. lia.
+Qed.
+
+Lemma us_of_tod_of_us v : 0 <= v < day_us -> us_of_tod (tod_of_us v) = v.
+Proof.
+  unfold day_us, us_of_tod, tod_of_us. cbn [t_h t_m t_s t_us]. intro H. lia.
+Qed.
+
+(* what the fields of a lexically well-formed time denote, before any carry *)
+Lemma time_of_fields_spec f t up :
+  time_f_lex f = true -> time_of_fields f = Ok (t, up) ->
+  tod_ok t = true /\
+  us_of_tod t + (if up then 1 else 0) = spec_us_of_fields f.
+Proof.
+  destruct f as [h mi sec osub]. unfold time_f_lex, time_of_fields, spec_us_of_fields.
+  cbn [f_h f_mi f_s f_sub]. intros Hlex.
+  repeat (apply andb_true_iff in Hlex as [Hlex ?]).
+  pose proof (dval_bound _ Hlex) as Bh.
+  match goal with H : all_digits mi = true |- _ => pose proof (dval_bound _ H) as Bm end.
+  match goal with H : all_digits sec = true |- _ => pose proof (dval_bound _ H) as Bs end.
+  assert (Hsub : exists us up', (match osub with
+                    | Some sub => (dval (pad6 6 sub), seventh_ge5 sub)
+                    | None => (0, false) end) = (us, up') /\ 0 <= us <= 999999 /\
+                    us + (if up' then 1 else 0) =
+                    match osub with Some sub => round_half_up_us sub | None => 0 end).
+  { destruct osub as [sub|].
+    - match goal with H : _ && _ = true |- _ => apply andb_true_iff in H as [Hs1 Hs2] end.
+      eexists _, _. split; [reflexivity|]. split; [apply pad6_bound, Hs1|].
+      apply round_half_up_digits; [exact Hs1|]. destruct sub; [discriminate|discriminate].
+    - exists 0, false. split; [reflexivity|]. lia. }
+  destruct Hsub as [us [up' [E [Bus Hr]]]]. rewrite E.
+  destruct (Z.leb_spec (dval h) 23); [|discriminate].
+  intros [= <- <-]. unfold tod_ok, us_of_tod. cbn [t_h t_m t_s t_us]. split; lia.
+Qed.
+
+Lemma tod_ok_bound t : tod_ok t = true -> 0 <= us_of_tod t < day_us.
+Proof.
+  unfold tod_ok, us_of_tod, day_us. intro H. lia.
+Qed.
+
+Lemma time_round_half_up_l : forall f t up,
+  time_f_lex f = true -> time_of_fields f = Ok (t, up) ->
+  (us_of_tod (if up then bump_time t else t) = spec_us_of_fields f mod day_us)%Z.
+Proof.
+  intros f t up Hlex Ht.
+  destruct (time_of_fields_spec _ _ _ Hlex Ht) as [Hok Hs].
+  pose proof (tod_ok_bound _ Hok) as Hb. rewrite <- Hs.
+  destruct up.
+  - unfold bump_time. rewrite us_of_tod_of_us; [reflexivity|].
+    apply Z.mod_pos_bound. reflexivity.
+  - rewrite Z.add_0_r. symmetry. apply Z.mod_small. exact Hb.
+Qed.
+
+(* ------------------------------------------------------------------ *)
+(* 2. zones                                                            *)
+(* ------------------------------------------------------------------ *)
+Definition zone_f_lex (z : zone_f) : bool :=
+  match z with
+  | ZOff _ h m => all_digits h && match m with Some m => all_digits m | None => true end
+  | _ => true
+  end.
+
+Lemma at_end_nil : at_end [] = true.
+Proof. reflexivity. Qed.
+
+Lemma scan_zone_lex s z : scan_zone s = Some z -> zone_f_lex z = true.
+Proof.
+  unfold scan_zone. destruct (at_end s); [intros [= <-]; reflexivity|].
+  destruct s as [|c r]; [discriminate|].
+  destruct (N.eqb c 90 || N.eqb c 122).
+  { destruct (at_end r); [intros [= <-]; reflexivity|discriminate]. }
+  destruct (N.eqb c ch_plus || N.eqb c ch_minus); [|discriminate].
+  destruct (span_digits r) as [h r1] eqn:E1.
+  pose proof (span_digits_digits _ _ _ E1) as Hh.
+  destruct (len12 h); [|discriminate].
+  destruct (at_end r1).
+  { intros [= <-]. cbn. rewrite Hh. reflexivity. }
+  destruct r1 as [|c1 r2]; [discriminate|].
+  destruct (N.eqb c1 ch_colon); [|discriminate].
+  destruct (span_digits r2) as [m r3] eqn:E2.
+  pose proof (span_digits_digits _ _ _ E2) as Hm.
+  destruct (f59 m && at_end r3); [|discriminate].
+  intros [= <-]. cbn. rewrite Hh, Hm. reflexivity.
+Qed.
+
+(* The unconditioned statement is false: h = "/" (value -1), m = "60" gives
+   60*h+m = 0 with h <> 0.  It holds whenever both numbers are non-negative,
+   in particular for every zone the scanner produces. *)
+Lemma zone_exact_nonneg : forall z,
+  match z with
+  | ZOff _ h m => 0 <= dval h /\ 0 <= match m with Some m => dval m | None => 0 end
+  | _ => True
+  end ->
+  tz_of_fields z = match spec_tz z with Some tz => Ok tz | None => ErrValue end.
+Proof.
+  intros [| |neg h m]; [reflexivity|reflexivity|]. intros [Hh Hm].
+  unfold tz_of_fields, spec_tz.
+  set (hv := dval h) in *. set (mv := match m with Some m0 => dval m0 | None => 0 end) in *.
+  destruct (Z.eqb_spec hv 0) as [E0|E0]; cbn [andb].
+  - destruct (Z.eqb_spec mv 0) as [E1|E1].
+    + rewrite E0, E1. reflexivity.
+    + destruct (Z.leb_spec 24 hv); [reflexivity|].
+      destruct (Z.eqb_spec (60 * hv + mv) 0); [lia|].
+      destruct neg; f_equal; f_equal; lia.
+  - destruct (Z.leb_spec 24 hv); [reflexivity|].
+    destruct (Z.eqb_spec (60 * hv + mv) 0); [lia|].
+    destruct neg; f_equal; f_equal; lia.
+Qed.
+
+Lemma zone_exact_l : forall z, zone_f_lex z = true ->
+  tz_of_fields z = match spec_tz z with Some tz => Ok tz | None => ErrValue end.
+Proof.
+  intros z Hz. apply zone_exact_nonneg. destruct z as [| |neg h m]; [exact I|exact I|].
+  cbn in Hz. apply andb_true_iff in Hz as [Hh Hm]. split.
+  - apply dval_bound, Hh.
+  - destruct m as [m|]; [apply dval_bound, Hm|lia].
+Qed.
+
+Lemma zone_exact_scanned : forall s z, scan_zone s = Some z ->
+  tz_of_fields z = match spec_tz z with Some tz => Ok tz | None => ErrValue end.
+Proof. intros s z H. apply zone_exact_l, (scan_zone_lex _ _ H). Qed.
+
+Lemma zone_offset_l : forall neg h m tz, tz_of_fields (ZOff neg h m) = Ok tz ->
+  tz_offset tz = Some ((if neg then -1 else 1) * (60 * dval h + match m with Some m => dval m | None => 0 end))%Z
+  /\ (dval h < 24)%Z.
+Proof.
+  intros neg h m tz. unfold tz_of_fields.
+  set (hv := dval h). set (mv := match m with Some m0 => dval m0 | None => 0 end).
+  destruct (Z.eqb_spec hv 0) as [E0|E0]; cbn [andb].
+  - destruct (Z.eqb_spec mv 0) as [E1|E1].
+    + intros [= <-]. cbn [tz_offset]. split; [f_equal|]; destruct neg; lia.
+    + destruct (Z.leb_spec 24 hv); [discriminate|].
+      intros [= <-]. cbn [tz_offset]. split; [reflexivity|lia].
+  - destruct (Z.leb_spec 24 hv); [discriminate|].
+    intros [= <-]. cbn [tz_offset]. split; [reflexivity|lia].
+Qed.
+
+Lemma zone_exact_unconditioned_is_false :
+  let z := ZOff false [47%N] (Some [54%N; 48%N]) in
+  tz_of_fields z = Ok (TzFixed 0) /\ spec_tz z = Some TzUtc.
+Proof. split; reflexivity. Qed.
+
+(* ------------------------------------------------------------------ *)
+(* 3. what is written reads back                                       *)
+(* ------------------------------------------------------------------ *)
+Lemma d2_digits n : 0 <= n <= 99 -> all_digits (d2 n) = true.
+Proof. intro H. unfold d2, all_digits, is_digit, digit_chr. lia. Qed.
+
+Lemma d2_val n : 0 <= n <= 99 -> dval (d2 n) = n.
+Proof.
+  intro H. unfold d2, dval. cbn [fold_left]. unfold digit_val, digit_chr. lia.
+Qed.
+
+Lemma d2_f59 n : 0 <= n <= 59 -> f59 (d2 n) = true.
+Proof. intro H. unfold d2, f59, digit_chr. lia. Qed.
+
+Lemma d4_digits n : 0 <= n <= 9999 -> all_digits (d4 n) = true.
+Proof. intro H. unfold d4, all_digits, is_digit, digit_chr. lia. Qed.
+
+Lemma d4_val n : 0 <= n <= 9999 -> dval (d4 n) = n.
+Proof.
+  intro H. unfold d4, dval. cbn [fold_left]. unfold digit_val, digit_chr. lia.
+Qed.
+
+Lemma d6_digits n : 0 <= n <= 999999 -> all_digits (d6 n) = true.
+Proof. intro H. unfold d6, all_digits, is_digit, digit_chr. lia. Qed.
+
+Lemma d6_val n : 0 <= n <= 999999 -> dval (d6 n) = n.
+Proof.
+  intro H. unfold d6, dval. cbn [fold_left]. unfold digit_val, digit_chr. lia.
+Qed.
+
+Definition head_nd_nodot (s : str) : bool :=
+  match s with [] => true | c :: _ => negb (is_digit c) && negb (N.eqb c ch_dot) end.
+
+Lemma head_nd_nodot_nd s : head_nd_nodot s = true -> head_nd s = true.
+Proof. destruct s; cbn; [reflexivity|]. intro H. apply andb_true_iff in H. tauto. Qed.
+
+Lemma scan_hms_shape_nosub h mi sec rest :
+  all_digits h = true -> len12 h = true ->
+  all_digits mi = true -> f59 mi = true ->
+  all_digits sec = true -> f59 sec = true ->
+  head_nd_nodot rest = true ->
+  scan_hms (h ++ ch_colon :: mi ++ ch_colon :: sec ++ rest) = Some (mkTF h mi sec None, rest).
+Proof.
+  intros Hh Lh Hm Fm Hs Fs Hr. unfold scan_hms.
+  rewrite (span_digits_app h) by (assumption || reflexivity). cbn beta iota. rewrite Lh. cbn [negb].
+  rewrite N.eqb_refl. cbn [negb].
+  rewrite (span_digits_app mi) by (assumption || reflexivity). cbn beta iota. rewrite Fm. cbn [negb].
+  rewrite N.eqb_refl. cbn [negb].
+  pose proof (head_nd_nodot_nd _ Hr) as Hr'.
+  rewrite (span_digits_app sec) by (assumption || reflexivity). cbn beta iota. rewrite Fs. cbn [negb].
+  destruct rest as [|c r]; [reflexivity|].
+  cbn in Hr. apply andb_true_iff in Hr as [_ Hr]. apply negb_true_iff in Hr. rewrite Hr.
+  reflexivity.
+Qed.
+
+Lemma scan_hms_shape_sub h mi sec sub rest :
+  all_digits h = true -> len12 h = true ->
+  all_digits mi = true -> f59 mi = true ->
+  all_digits sec = true -> f59 sec = true ->
+  all_digits sub = true -> sub <> [] ->
+  head_nd rest = true ->
+  scan_hms (h ++ ch_colon :: mi ++ ch_colon :: sec ++ ch_dot :: sub ++ rest)
+  = Some (mkTF h mi sec (Some sub), rest).
+Proof.
+  intros Hh Lh Hm Fm Hs Fs Hsub Hne Hr. unfold scan_hms.
+  rewrite (span_digits_app h) by (assumption || reflexivity). cbn beta iota. rewrite Lh. cbn [negb].
+  rewrite N.eqb_refl. cbn [negb].
+  rewrite (span_digits_app mi) by (assumption || reflexivity). cbn beta iota. rewrite Fm. cbn [negb].
+  rewrite N.eqb_refl. cbn [negb].
+  rewrite (span_digits_app sec) by (assumption || reflexivity). cbn beta iota. rewrite Fs. cbn [negb].
+  rewrite N.eqb_refl.
+  rewrite (span_digits_app sub) by (assumption || reflexivity). cbn beta iota.
+  destruct sub; [contradiction|reflexivity].
+Qed.
+
+Lemma scan_ymd_shape y mo d rest :
+  all_digits y = true -> y <> [] ->
+  all_digits mo = true -> len12 mo = true ->
+  all_digits d = true -> len12 d = true ->
+  head_nd rest = true ->
+  scan_ymd (y ++ ch_minus :: mo ++ ch_minus :: d ++ rest) = Some (mkDF y mo d, rest).
+Proof.
+  intros Hy Hne Hm Lm Hd Ld Hr. unfold scan_ymd.
+  rewrite (span_digits_app y) by (assumption || reflexivity). cbn beta iota.
+  destruct y as [|y0 y']; [contradiction|].
+  rewrite N.eqb_refl. cbn [negb].
+  rewrite (span_digits_app mo) by (assumption || reflexivity). cbn beta iota. rewrite Lm. cbn [negb].
+  rewrite N.eqb_refl. cbn [negb].
+  rewrite (span_digits_app d) by (assumption || reflexivity). cbn beta iota. rewrite Ld. reflexivity.
+Qed.
+
+Lemma scan_zone_shape sg h m :
+  (sg = ch_plus \/ sg = ch_minus) ->
+  all_digits h = true -> len12 h = true ->
+  all_digits m = true -> f59 m = true ->
+  scan_zone (sg :: h ++ ch_colon :: m) = Some (ZOff (N.eqb sg ch_minus) h (Some m)).
+Proof.
+  intros Hsg Hh Lh Hm Fm. unfold scan_zone.
+  assert (E1 : at_end (sg :: h ++ ch_colon :: m) = false).
+  { destruct h as [|a [|b h]]; reflexivity. }
+  rewrite E1.
+  assert (E2 : (N.eqb sg 90 || N.eqb sg 122) = false) by (destruct Hsg; subst; reflexivity).
+  assert (E3 : (N.eqb sg ch_plus || N.eqb sg ch_minus) = true) by (destruct Hsg; subst; reflexivity).
+  rewrite E2, E3.
+  rewrite (span_digits_app h) by (assumption || reflexivity). cbn beta iota. rewrite Lh.
+  assert (E4 : at_end (ch_colon :: m) = false).
+  { destruct m as [|a m]; [discriminate|reflexivity]. }
+  rewrite E4, N.eqb_refl.
+  rewrite <- (app_nil_r m) at 1. rewrite (span_digits_app m []) by (assumption || reflexivity). cbn beta iota.
+  rewrite Fm. reflexivity.
+Qed.
+
+Lemma len12_d2 n : len12 (d2 n) = true.
+Proof. reflexivity. Qed.
+
+Definition iso_time_f (t : tod) : time_f :=
+  mkTF (d2 (t_h t)) (d2 (t_m t)) (d2 (t_s t)) (if t_us t =? 0 then None else Some (d6 (t_us t))).
+
+Lemma scan_hms_iso t rest : tod_ok t = true -> head_nd_nodot rest = true ->
+  scan_hms (iso_tod t ++ rest) = Some (iso_time_f t, rest).
+Proof.
+  intros Hok Hr. unfold iso_tod, iso_time_f. unfold tod_ok in Hok.
+  assert (Hh : all_digits (d2 (t_h t)) = true) by (apply d2_digits; lia).
+  assert (Hm : all_digits (d2 (t_m t)) = true) by (apply d2_digits; lia).
+  assert (Hs : all_digits (d2 (t_s t)) = true) by (apply d2_digits; lia).
+  assert (Fm : f59 (d2 (t_m t)) = true) by (apply d2_f59; lia).
+  assert (Fs : f59 (d2 (t_s t)) = true) by (apply d2_f59; lia).
+  rewrite <- !app_assoc. destruct (Z.eqb_spec (t_us t) 0) as [E|E]; cbn [app].
+  - apply scan_hms_shape_nosub; auto.
+  - apply scan_hms_shape_sub; auto.
+    + apply d6_digits. lia.
+    + discriminate.
+    + apply head_nd_nodot_nd, Hr.
+Qed.
+
+Lemma time_of_fields_iso t : tod_ok t = true -> time_of_fields (iso_time_f t) = Ok (t, false).
+Proof.
+  intro Hok. unfold tod_ok in Hok. destruct t as [h m s us]. cbn [t_h t_m t_s t_us] in *.
+  unfold time_of_fields, iso_time_f. cbn [f_h f_mi f_s f_sub t_h t_m t_s t_us].
+  rewrite !d2_val by lia.
+  replace (h <=? 23) with true by lia.
+  destruct (Z.eqb_spec us 0) as [E|E].
+  - subst us. reflexivity.
+  - change (pad6 6 (d6 us)) with (d6 us). change (seventh_ge5 (d6 us)) with false.
+    rewrite d6_val by lia. reflexivity.
+Qed.
+
+Lemma iso_tz_head tz : head_nd_nodot (iso_tz tz) = true.
+Proof.
+  destruct tz as [| |m]; [reflexivity|reflexivity|].
+  unfold iso_tz. destruct (m <? 0); reflexivity.
+Qed.
+
+Lemma zone_roundtrip tz : tz_ok tz = true ->
+  exists zf, scan_zone (iso_tz tz) = Some zf /\ tz_of_fields zf = Ok tz.
+Proof.
+  destruct tz as [| |m]; intro Hok.
+  - exists ZAbsent. split; reflexivity.
+  - eexists. split; [reflexivity|]. reflexivity.
+  - cbn [tz_ok] in Hok. unfold iso_tz.
+    set (a := Z.abs m). set (sg := if m <? 0 then ch_minus else ch_plus).
+    change ([sg] ++ d2 (a / 60) ++ [ch_colon] ++ d2 (a mod 60))
+      with (sg :: d2 (a / 60) ++ ch_colon :: d2 (a mod 60)).
+    assert (Ha : 0 < a < 1440) by (unfold a; lia).
+    eexists. split.
+    + apply scan_zone_shape.
+      * unfold sg. destruct (m <? 0); auto.
+      * apply d2_digits. lia.
+      * reflexivity.
+      * apply d2_digits. lia.
+      * apply d2_f59. lia.
+    + unfold tz_of_fields. rewrite !d2_val by lia.
+      destruct (Z.eqb_spec (a / 60) 0) as [E0|E0]; cbn [andb].
+      * destruct (Z.eqb_spec (a mod 60) 0) as [E1|E1]; [lia|].
+        replace (24 <=? a / 60) with false by lia. f_equal. f_equal.
+        unfold sg, a. destruct (Z.ltb_spec m 0); cbn [N.eqb ch_minus ch_plus Pos.eqb]; lia.
+      * replace (24 <=? a / 60) with false by lia. f_equal. f_equal.
+        unfold sg, a. destruct (Z.ltb_spec m 0); cbn [N.eqb ch_minus ch_plus Pos.eqb]; lia.
+Qed.
+
+Lemma time_roundtrip_l : forall t tz, tod_ok t = true -> tz_ok tz = true ->
+  exists tz', parse_time (iso_time t tz) = Ok (t, tz') /\ tz_offset tz' = tz_offset tz.
+Proof.
+  intros t tz Ht Hz. exists tz. split; [|reflexivity].
+  destruct (zone_roundtrip tz Hz) as [zf [Hscan Htz]].
+  unfold parse_time, iso_time, scan_time.
+  rewrite (scan_hms_iso t _ Ht (iso_tz_head tz)), Hscan, (time_of_fields_iso t Ht), Htz.
+  reflexivity.
+Qed.
+
+Lemma dim_range y m : 28 <= days_in_month y m <= 31.
+Proof.
+  unfold days_in_month. destruct (m =? 2); [destruct (is_leap y); lia|].
+  destruct ((m =? 4) || (m =? 6) || (m =? 9) || (m =? 11)); lia.
+Qed.
+
+Lemma civil_ok_range c : civil_ok c = true ->
+  1 <= c_y c <= 9999 /\ 1 <= c_m c <= 12 /\ 1 <= c_d c <= days_in_month (c_y c) (c_m c).
+Proof. unfold civil_ok, valid_civil. intro H. lia. Qed.
+
+Definition iso_date_f (c : civil) : date_f := mkDF (d4 (c_y c)) (d2 (c_m c)) (d2 (c_d c)).
+
+Lemma scan_ymd_iso c rest : civil_ok c = true -> head_nd rest = true ->
+  scan_ymd (iso_date c ++ rest) = Some (iso_date_f c, rest).
+Proof.
+  intros Hok Hr. apply civil_ok_range in Hok.
+  pose proof (dim_range (c_y c) (c_m c)).
+  unfold iso_date, iso_date_f. rewrite <- !app_assoc. cbn [app].
+  apply scan_ymd_shape; auto.
+  - apply d4_digits. lia.
+  - discriminate.
+  - apply d2_digits. lia.
+  - apply d2_digits. lia.
+Qed.
+
+Lemma date_of_fields_iso c : civil_ok c = true -> date_of_fields (iso_date_f c) = Ok c.
+Proof.
+  intro Hok. pose proof (civil_ok_range _ Hok) as Hr.
+  pose proof (dim_range (c_y c) (c_m c)).
+  destruct c as [y m d]. cbn [c_y c_m c_d] in *.
+  unfold date_of_fields, iso_date_f. cbn [f_y f_mo f_d c_y c_m c_d].
+  rewrite d4_val, !d2_val by lia.
+  unfold civil_ok in Hok. cbn [c_y c_m c_d] in Hok. rewrite Hok.
+  replace (c_int_max <? y) with false by (unfold c_int_max; lia). reflexivity.
+Qed.
+
+Lemma date_roundtrip_l : forall c, civil_ok c = true -> parse_date (iso_date c) = Ok c.
+Proof.
+  intros c Hok. unfold parse_date, scan_date.
+  rewrite <- (app_nil_r (iso_date c)). rewrite (scan_ymd_iso c [] Hok eq_refl).
+  cbn [scan_zone at_end]. apply date_of_fields_iso, Hok.
+Qed.
+
+Lemma datetime_roundtrip_l : forall c t tz, civil_ok c = true -> tod_ok t = true -> tz_ok tz = true ->
+  exists tz', parse_datetime (iso_datetime c t tz) = Ok (c, t, tz') /\ tz_offset tz' = tz_offset tz.
+Proof.
+  intros c t tz Hc Ht Hz. exists tz. split; [|reflexivity].
+  destruct (zone_roundtrip tz Hz) as [zf [Hscan Htz]].
+  unfold parse_datetime, iso_datetime, scan_datetime.
+  rewrite (scan_ymd_iso c) by (assumption || reflexivity). cbn [app].
+  change (N.eqb 84 84 || N.eqb 84 32) with true. cbn iota.
+  rewrite (scan_hms_iso t _ Ht (iso_tz_head tz)), Hscan.
+  rewrite (date_of_fields_iso c Hc), (time_of_fields_iso t Ht), Htz.
+  reflexivity.
+Qed.
+
+(* ------------------------------------------------------------------ *)
+(* 4. the carry                                                        *)
+(* ------------------------------------------------------------------ *)
+Lemma dby_succ y : days_before_year (y + 1) = days_before_year y + (if is_leap y then 366 else 365).
+Proof.
+  unfold days_before_year, is_leap. replace (y + 1 - 1) with y by lia.
+  destruct (Z.eqb_spec (y mod 4) 0), (Z.eqb_spec (y mod 100) 0), (Z.eqb_spec (y mod 400) 0);
+    cbn [andb orb negb]; lia.
+Qed.
+
+Lemma dbm_11 y : days_before_month_n y 11 = if is_leap y then 335 else 334.
+Proof.
+  unfold days_before_month_n, days_in_month.
+  change (Z.of_nat 1) with 1; change (Z.of_nat 2) with 2; change (Z.of_nat 3) with 3;
+  change (Z.of_nat 4) with 4; change (Z.of_nat 5) with 5; change (Z.of_nat 6) with 6;
+  change (Z.of_nat 7) with 7; change (Z.of_nat 8) with 8; change (Z.of_nat 9) with 9;
+  change (Z.of_nat 10) with 10; change (Z.of_nat 11) with 11.
+  cbn [Z.eqb Pos.eqb orb]. destruct (is_leap y); reflexivity.
+Qed.
+
+Lemma next_day_number : forall c c', civil_ok c = true -> next_day c = Some c' ->
+  civil_ok c' = true /\ (day_number c' = day_number c + 1)%Z.
+Proof.
+  intros c c' Hok. pose proof (civil_ok_range _ Hok) as Hr. clear Hok.
+  destruct c as [y m d]. cbn [c_y c_m c_d] in Hr.
+  unfold next_day, civil_ok, valid_civil, day_number. cbn [c_y c_m c_d].
+  destruct (Z.ltb_spec d (days_in_month y m)).
+  - intros [= <-]. cbn [c_y c_m c_d]. split; lia.
+  - destruct (Z.ltb_spec m 12).
+    + intros [= <-]. cbn [c_y c_m c_d]. pose proof (dim_range y (m + 1)). split; [lia|].
+      replace (Z.to_nat (m + 1 - 1)) with (S (Z.to_nat (m - 1))) by lia.
+      cbn [days_before_month_n].
+      replace (Z.of_nat (S (Z.to_nat (m - 1)))) with m by lia. lia.
+    + destruct (Z.ltb_spec y 9999); [|discriminate].
+      intros [= <-]. cbn [c_y c_m c_d]. assert (m = 12) by lia. subst m.
+      change (days_in_month y 12) with 31 in *.
+      change (days_in_month (y + 1) 1) with 31.
+      change (Z.to_nat (1 - 1)) with 0%nat. change (Z.to_nat (12 - 1)) with 11%nat.
+      rewrite dbm_11, dby_succ. cbn [days_before_month_n].
+      split; [lia|]. destruct (is_leap y); lia.
+Qed.
+
+Lemma scan_datetime_lex s df tf zf :
+  scan_datetime s = Some (df, tf, zf) -> time_f_lex tf = true /\ zone_f_lex zf = true.
+Proof.
+  unfold scan_datetime. destruct (scan_ymd s) as [[d [|c r]]|]; try discriminate.
+  destruct (N.eqb c 84 || N.eqb c 32); [|discriminate].
+  destruct (scan_hms r) as [[t r']|] eqn:E; [|discriminate].
+  destruct (scan_zone r') as [z|] eqn:Ez; [|discriminate].
+  intros [= <- <- <-]. split; [apply (scan_hms_lex _ _ _ E)|apply (scan_zone_lex _ _ Ez)].
+Qed.
+
+Lemma scan_time_lex s tf zf :
+  scan_time s = Some (tf, zf) -> time_f_lex tf = true /\ zone_f_lex zf = true.
+Proof.
+  unfold scan_time. destruct (scan_hms s) as [[t r']|] eqn:E; [|discriminate].
+  destruct (scan_zone r') as [z|] eqn:Ez; [|discriminate].
+  intros [= <- <-]. split; [apply (scan_hms_lex _ _ _ E)|apply (scan_zone_lex _ _ Ez)].
+Qed.
+
+Lemma date_of_fields_ok df c : date_of_fields df = Ok c -> civil_ok c = true.
+Proof.
+  unfold date_of_fields. destruct (c_int_max <? dval (f_y df)); [discriminate|].
+  destruct (valid_civil _ _ _) eqn:E; [|discriminate]. intros [= <-]. exact E.
+Qed.
+
+Lemma datetime_carry_l : forall s df tf zf c t tz,
+  scan_datetime s = Some (df, tf, zf) -> parse_datetime s = Ok (c, t, tz) ->
+  exists c0, date_of_fields df = Ok c0 /\
+  (day_number c * day_us + us_of_tod t = day_number c0 * day_us + spec_us_of_fields tf)%Z.
+Proof.
+  intros s df tf zf c t tz Hscan Hp.
+  destruct (scan_datetime_lex _ _ _ _ Hscan) as [Hlex _].
+  unfold parse_datetime in Hp. rewrite Hscan in Hp.
+  destruct (date_of_fields df) as [c0| |] eqn:Ed; try discriminate.
+  exists c0. split; [reflexivity|].
+  pose proof (date_of_fields_ok _ _ Ed) as Hc0.
+  destruct (time_of_fields tf) as [[t0 up]| |] eqn:Et; try discriminate.
+  destruct (tz_of_fields zf) as [tz0| |]; try discriminate.
+  destruct (time_of_fields_spec _ _ _ Hlex Et) as [Hok Hs].
+  pose proof (tod_ok_bound _ Hok) as Hb. rewrite <- Hs.
+  destruct up.
+  - destruct (Z.ltb_spec (us_of_tod t0 + 1) day_us).
+    + inversion Hp; subst. rewrite us_of_tod_of_us by lia. lia.
+    + destruct (next_day c0) as [c'|] eqn:En; [|discriminate].
+      inversion Hp; subst.
+      destruct (next_day_number _ _ Hc0 En) as [_ Hn]. rewrite Hn.
+      change (us_of_tod (mkTod 0 0 0 0)) with 0.
+      assert (us_of_tod t0 + 1 = day_us) by lia. lia.
+  - inversion Hp; subst. lia.
+Qed.
+
+(* the same, with the result known to be a well-formed Python value *)
+Lemma datetime_carry_ok : forall s df tf zf c t tz,
+  scan_datetime s = Some (df, tf, zf) -> parse_datetime s = Ok (c, t, tz) ->
+  civil_ok c = true /\ tod_ok t = true.
+Proof.
+  intros s df tf zf c t tz Hscan Hp.
+  destruct (scan_datetime_lex _ _ _ _ Hscan) as [Hlex _].
+  unfold parse_datetime in Hp. rewrite Hscan in Hp.
+  destruct (date_of_fields df) as [c0| |] eqn:Ed; try discriminate.
+  pose proof (date_of_fields_ok _ _ Ed) as Hc0.
+  destruct (time_of_fields tf) as [[t0 up]| |] eqn:Et; try discriminate.
+  destruct (tz_of_fields zf) as [tz0| |]; try discriminate.
+  destruct (time_of_fields_spec _ _ _ Hlex Et) as [Hok Hs].
+  pose proof (tod_ok_bound _ Hok) as Hb.
+  destruct up.
+  - destruct (Z.ltb_spec (us_of_tod t0 + 1) day_us).
+    + inversion Hp; subst. split; [exact Hc0|].
+      unfold tod_ok, tod_of_us. cbn [t_h t_m t_s t_us]. unfold day_us in *. lia.
+    + destruct (next_day c0) as [c'|] eqn:En; [|discriminate].
+      inversion Hp; subst.
+      destruct (next_day_number _ _ Hc0 En) as [Hc' _]. split; [exact Hc'|reflexivity].
+  - inversion Hp; subst. split; assumption.
+Qed.
+
+(* ------------------------------------------------------------------ *)
+(* 5. malformed or impossible text                                     *)
+(* ------------------------------------------------------------------ *)
+Lemma malformed_raises_l : forall s,
+  (scan_time s = None -> parse_time s = ErrValue) /\
+  (scan_date s = None -> parse_date s = ErrValue) /\
+  (scan_datetime s = None -> parse_datetime s = ErrValue) /\
+  (forall tf zf, scan_time s = Some (tf, zf) -> (23 < dval (f_h tf))%Z -> parse_time s = ErrValue) /\
+  (forall df zf, scan_date s = Some (df, zf) ->
+      valid_civil (dval (f_y df)) (dval (f_mo df)) (dval (f_d df)) = false ->
+      (dval (f_y df) <= c_int_max)%Z -> parse_date s = ErrValue).
+Proof.
+  intro s. repeat split.
+  - intro H. unfold parse_time. rewrite H. reflexivity.
+  - intro H. unfold parse_date. rewrite H. reflexivity.
+  - intro H. unfold parse_datetime. rewrite H. reflexivity.
+  - intros tf zf H Hh. unfold parse_time. rewrite H. unfold time_of_fields.
+    destruct (match f_sub tf with Some sub => _ | None => _ end) as [us up].
+    replace (dval (f_h tf) <=? 23) with false by lia. reflexivity.
+  - intros df zf H Hv Hy. unfold parse_date. rewrite H. unfold date_of_fields.
+    replace (c_int_max <? dval (f_y df)) with false by lia. rewrite Hv. reflexivity.
 Qed.
